@@ -251,3 +251,40 @@ func HexPt(s string) ref.Pt {
 	}
 	return p
 }
+
+// ReceiverWithHistory returns a receiver object whose previous contents must not matter to an operation that
+// overwrites it: (0) the zero value, (1) a computed point with Z != 1, (2) a point that has since been the receiver of
+// decodes that FAILED (well-formed but off-curve uncompressed, non-residue compressed, wrong length - all documented
+// to leave the receiver unchanged), (3) the identity. NumReceiverHistories is the number of kinds.
+const NumReceiverHistories = 4
+
+func ReceiverWithHistory(h int) *Point {
+	switch h % NumReceiverHistories {
+	case 1:
+		return MkPTRep(ref.G().Mul(big.NewInt(5)), big.NewInt(9))
+	case 2:
+		v := MkPTRep(ref.G().Mul(big.NewInt(13)), big.NewInt(3))
+		g := ref.G()
+		off := append([]byte{4}, append(ref.B32(g.X), ref.B32(new(big.Int).Add(g.Y, big.NewInt(1)))...)...)
+		x := big.NewInt(1)
+		for {
+			if _, ok := ref.LiftX(x, 0); !ok {
+				break
+			}
+			x.Add(x, big.NewInt(1))
+		}
+		for _, b := range [][]byte{off, append([]byte{2}, ref.B32(x)...), off[:64], {}} {
+			v.SetBytes(b)
+			if len(b) == 65 {
+				v.SetUncompressedBytes(b)
+			}
+			if len(b) == 33 {
+				v.SetCompressedBytes(b)
+			}
+		}
+		return v
+	case 3:
+		return secp256k1.NewIdentityPoint()
+	}
+	return new(Point)
+}
